@@ -484,11 +484,8 @@ class SummaryReporterV2(AbstractSummaryReporter):  # pylint: disable=invalid-nam
         stream.write(format_summary("step", self.summary_counts.steps))
 
         has_hook_errors = (self.summary_counts.hook_errors.all > 0)
-        has_hook_failed = (self.summary_counts.hook_failed.all > 0)
         if has_hook_errors:
             stream.write(format_summary("hook.errors", self.summary_counts.hook_errors))
-        if has_hook_failed:
-            stream.write(format_summary("hook.failed", self.summary_counts.hook_failed))
 
         # -- DURATION:
         if with_duration:
